@@ -63,18 +63,23 @@ def typedOf (x : S ⊕ Py) : Py :=
 
 def isErrPy : Py → Option Code | .xErr c => some c | _ => none
 
+def isBlankPy : Py → Bool | .xBlank => true | .none => true | _ => false
+
 /-- first Excel error among flattened items -/
 def firstErrItem : List (S ⊕ Py) → Option Code
   | [] => none
   | x :: rest => match isErrPy (typedOf x) with | some c => some c | none => firstErrItem rest
 
 /-- `_validate(Tuple[itype], val)`: flatten; for Number/Text/Anything items the leftmost error is
-    raised; every other item goes through `_safe_validate` (uncastable items are dropped). -/
+    raised; blank items of a number list are skipped; every other item goes through `_safe_validate`
+    (uncastable items are dropped). -/
 def validateTuple (ext : Ext) (t : XlT) (xs : List Item) : R (List S) :=
   let flat := flattenItems xs
   match firstErrItem flat with
   | some c => .xl c
   | none =>
+    -- number lists skip blank items (a reference to an empty cell is not a zero)
+    let flat := if t = .number then flat.filter (fun x => !isBlankPy (typedOf x)) else flat
     .ok (flat.filterMap fun x => match castScalar ext t (typedOf x) with
                                  | .ok s => some s
                                  | _ => none)
